@@ -2,8 +2,13 @@
    The state-machine models use unbounded N for slots; the Rust code uses u64 with overflow checks on
    (the crate's release profile).  Slots in votes / certificates are bounded by the pool's window check,
    but a shred's slot is any u64 its leader signs, and it reaches Votor unchecked as a blockstore event.
-     src/types/slot.rs  Slot::slots_in_window:  (start.0 .. start.0 + SLOTS_PER_WINDOW)
-   overflows for the last window of the u64 range; Votor::try_skip_window iterates over it.
+     src/types/slot.rs  Slot::slots_in_window
+        pinned tree:   (start.0 .. start.0 + SLOTS_PER_WINDOW)        overflows for the last window of the u64 range
+        current tree:  (0..SLOTS_PER_WINDOW).map(|i| Slot(start + i))  ("fix: iterate the slots of the last leader
+                       window without overflow", c169de0): start <= 2^64-4, so start + i <= 2^64-1
+   Votor::try_skip_window iterates it.  [pinned = true] selects the pinned arithmetic.
+   Every other slot computation Votor performs on an event's slot (first_slot_in_window: division then
+   multiplication; prev() on a slot above the highest final certificate, hence > 0) stays inside u64 for every u64 input.
 
    MODELLED_FUNCTIONS: Slot::slots_in_window Votor::try_skip_window (arithmetic) *)
 From Coq Require Import List NArith Bool.
@@ -34,17 +39,21 @@ Definition sent_before_skip (own : vidx) (i : vin) : list vout :=
   | _ => []
   end.
 
-Definition votor_step64 (own : vidx) (t : votor) (i : vin) : votor * list vout * bool :=
+Definition votor_step64_gen (pinned : bool) (own : vidx) (t : votor) (i : vin) : votor * list vout * bool :=
   if vt_panicked t then (t, [], true)
   else match skip_window_target t i with
-       | Some s => if window_overflows s
+       | Some s => if pinned && window_overflows s
                    then (mkVotor (vt_slots t) (vt_highest t) true, sent_before_skip own i, true)
                    else votor_step own t i
        | None => votor_step own t i
        end.
+Definition votor_step64 := votor_step64_gen false.
+Definition votor_step64_pinned := votor_step64_gen true.
 
 Definition vin_slot (i : vin) : slot :=
   match i with
   | VPool e => pevent_slot e
   | VFirstShred s | VInvalidBlock s | VBlock s _ _ | VTimeout s | VTimeoutCrashed s => s
   end.
+(* every slot an event carries fits u64 *)
+Definition vin_u64 (i : vin) : bool := vin_slot i <=? U64_MAX.
